@@ -16,6 +16,7 @@ One op per line, one canonical answer line per op — the same text `lean/Driver
     tick
     cancel <id> / force <id>                  by request ordinal (999 = an id nobody knows)
     sim <j>                                   Simulate tag T<j>
+    pause 0|1                                 set the run state's paused flag (what Pause / Unpause do)
 """
 from __future__ import annotations
 
@@ -205,6 +206,10 @@ class CmdRun:
             except ValueError:
                 r = "err:ValueError"
             return r + " | " + self.obs()
+        if f[0] == "pause":
+            # the paused flag of the run state (Pause / Unpause commands: model M1) as an input
+            e._runstate_paused = f[1] == "1"
+            return "ok | " + self.obs()
         if f[0] == "sim":
             e.tags[f"T{int(f[1])}"].simulate_value(1, self.clock.now)
             return "ok | " + self.obs()
@@ -284,7 +289,7 @@ class CmdRun:
         snaps = "/".join(self.stop_snaps) if self.stop_snaps else "none"
         self.stop_snaps = []
         return (f"ev={ev} ex={ex} qu={qu} in={','.join(inst) or '-'} tr={self._track()} "
-                f"st={int(e._runstate_started)}{int(e._runstate_stopping)}{int(e.tracking.enabled)} sys={sysc} "
+                f"st={int(e._runstate_started)}{int(e._runstate_stopping)}{int(e.tracking.enabled)}{int(e._runstate_paused)} sys={sysc} "
                 f"run={'-' if rid is None else self.runs[rid]} sim={sim} rs={self.resets} stop={snaps}")
 
 
